@@ -457,6 +457,8 @@ func (x *hist) checkObjects(m *model, ls []*leaf, v2 bool) (missing []string) {
 		colLeaf[l.col] = k
 	}
 	try := func(mod func(a, b []lval)) (errA, errB error) {
+		// probe rows are rolled back: their row numbers are reused (keeps values inside int8)
+		defer func(n int) { x.rows = n }(x.rows)
 		x.rows++
 		ia := x.rows
 		x.rows++
@@ -524,9 +526,8 @@ func (x *hist) checkObjects(m *model, ls []*leaf, v2 bool) (missing []string) {
 		if e.V2 && !v2 {
 			continue
 		}
-		// single probe row carrying the violating value
-		x.rows++
-		i := x.rows
+		// single probe row carrying the violating value (rolled back, row number reused)
+		i := x.rows + 1
 		args := make([]interface{}, len(ls))
 		ph := make([]string, len(ls))
 		for k, l := range ls {
